@@ -419,7 +419,8 @@ class BaseInput:
             Series: The assembled series.
         """
         dataframe = dataframe.apply(
-            lambda x: ', '.join(filter(lambda e: bool(e) and e != "n/a", map(str, x))),
+            # cells that are empty, blank or n/a contribute nothing (a blank cell would leave an empty element)
+            lambda x: ', '.join(filter(lambda e: bool(e.strip()) and e.strip() != "n/a", map(str, x))),
             axis=1
         )
         return dataframe
